@@ -20,7 +20,7 @@ import (
 func init() { props["C06"] = c06 }
 
 func c06(c *Ctx) {
-	c.Rule = "exhaustive: 10 integer kinds x {min,max,0,1,-1,mid} x {plain,named,pointer} + float64/float32/decimal values x positions {root, map value, struct field, First, Last, Index(0), projected across an array of objects, receiver of Add(0)}; thorough adds random values. The result must be decimal.Decimal with exactly the source value (math/big). Non-trivial = value not zero; distinct by (query, data)."
+	c.Rule = "exhaustive: 10 integer kinds x {min,max,0,1,-1,mid} x {plain,named,pointer} + float64/float32/decimal values x positions {root, map value, struct field, First, Last, Index(0), projected across an array of objects, receiver of Add(0)}; thorough adds random values. Bit twins (a negative int64, the uint64 2^64+x, the float64 with the same bits) converted one after the other in one evaluation, both orders. The result must be decimal.Decimal with exactly the source value (math/big). Non-trivial = value not zero; distinct by (query, data)."
 	type nv struct {
 		d   *D
 		val *big.Rat
